@@ -100,3 +100,127 @@ fn rk_num_int_x100_divisible() {
     let out = rk_num(&rk, &formats, is_1904);
     assert!(obs(&out) == (1, q as i64 as u64, 0, false));
 }
+
+// ------------------------------------------------------------------------------------------------
+// unit xlsrec: harnesses behind the assumed contracts of units/xlsrec and the float-level clauses of C02
+// ------------------------------------------------------------------------------------------------
+
+/// C10: `format_excel_f64` wraps a stored double by the cell format and copies the date-system flag;
+/// discharges the Verus clause C10.format_f64 and the Float/DateTime arms of `From<DataRef> for Data` used by it.
+#[kani::proof]
+fn format_excel_f64_spec() {
+    let v = f64::from_bits(kani::any::<u64>());
+    let is_1904: bool = kani::any();
+    let f0 = any_format();
+    let has: bool = kani::any();
+    let fmt = if has { Some(&f0) } else { None };
+    kani::cover!(has && matches!(f0, CellFormat::TimeDelta));
+    let out = format_excel_f64(v, fmt, is_1904);
+    assert!(obs(&out) == wrap_f64(v, fmt.copied(), is_1904));
+}
+
+/// [MS-XLS] 2.5.10 BErr code table (written out independently of parse_err)
+fn berr_code(e: u8) -> Option<CellErrorType> {
+    match e {
+        0x00 => Some(CellErrorType::Null),
+        0x07 => Some(CellErrorType::Div0),
+        0x0F => Some(CellErrorType::Value),
+        0x17 => Some(CellErrorType::Ref),
+        0x1D => Some(CellErrorType::Name),
+        0x24 => Some(CellErrorType::Num),
+        0x2A => Some(CellErrorType::NA),
+        0x2B => Some(CellErrorType::GettingData),
+        _ => None,
+    }
+}
+
+/// [MS-XLS] 2.5.133 FormulaValue (8 bytes): fExprO = bytes 6..8 == 0xFFFF marks a non-numeric cached result whose kind is byte 0:
+/// 0 string (the value follows in a String record -> no cell yet), 1 boolean (byte 2), 2 error (byte 2, a BErr), 3 blank string;
+/// otherwise the 8 bytes are an Xnum: the IEEE double itself. Complete over all 2^64 inputs.
+#[kani::proof]
+fn parse_formula_value_spec() {
+    let r: [u8; 8] = kani::any();
+    let out = parse_formula_value(&r);
+    if r[6] == 0xFF && r[7] == 0xFF {
+        match r[0] {
+            0 => assert!(matches!(out, Ok(None))),
+            1 => assert!(matches!(out, Ok(Some(Data::Bool(b))) if b == (r[2] != 0))),
+            2 => match berr_code(r[2]) {
+                Some(code) => assert!(matches!(out, Ok(Some(Data::Error(ref e))) if *e == code)),
+                None => assert!(out.is_err()),
+            },
+            3 => assert!(matches!(out, Ok(Some(Data::String(ref s))) if s.is_empty())),
+            _ => assert!(out.is_err()),
+        }
+        kani::cover!(r[0] == 2 && r[2] == 0x2A);
+    } else {
+        kani::cover!(r[0] == 2);
+        assert!(matches!(out, Ok(Some(Data::Float(f))) if f.to_bits() == u64::from_le_bytes(r)));
+    }
+}
+
+/// C02 "the same number encoded as NUMBER, RK or inside a MULRK run reads as a numerically equal value at the same cell":
+/// n is written at (row, col) as RK integer, RK integer x100 (payload 100 n), RK float (when n's double has 34 zero low bits) and NUMBER;
+/// the real parse_rk / parse_number must return the same position and numerically equal values. (MULRK entries go through the same
+/// rk_num as parse_rk: Verus clause C02.mulrk_cells uses the same rk_value.) Formats table empty.
+#[kani::proof]
+fn rk_equivalence() {
+    let n: i32 = kani::any();
+    // 100 n must fit the signed 30-bit payload
+    kani::assume(n >= -(1 << 29) / 100 && n <= ((1 << 29) - 1) / 100);
+    let row: u16 = kani::any();
+    let col: u16 = kani::any();
+    let ixfe: u16 = kani::any();
+    let formats: [CellFormat; 0] = [];
+    let head = |rec: &mut [u8]| {
+        rec[0..2].copy_from_slice(&row.to_le_bytes());
+        rec[2..4].copy_from_slice(&col.to_le_bytes());
+        rec[4..6].copy_from_slice(&ixfe.to_le_bytes());
+    };
+    let x = n as f64;
+
+    // NUMBER (2.4.180): Xnum at offset 6
+    let mut number = [0u8; 14];
+    head(&mut number);
+    number[6..14].copy_from_slice(&x.to_bits().to_le_bytes());
+    let c_num = parse_number(&number, &formats, false).unwrap();
+
+    // RK integer (2.5.217): fX100 = 0, fInt = 1, num = n
+    let mut rk_i = [0u8; 10];
+    head(&mut rk_i);
+    rk_i[6..10].copy_from_slice(&((((n as u32) << 2) | 2).to_le_bytes()));
+    let c_i = parse_rk(&rk_i, &formats, false).unwrap();
+
+    // RK integer x100: fX100 = 1, fInt = 1, num = 100 n
+    let mut rk_c = [0u8; 10];
+    head(&mut rk_c);
+    rk_c[6..10].copy_from_slice(&(((((n * 100) as u32) << 2) | 3).to_le_bytes()));
+    let c_c = parse_rk(&rk_c, &formats, false).unwrap();
+
+    let pos = (row as u32, col as u32);
+    assert!(c_num.get_position() == pos && c_i.get_position() == pos && c_c.get_position() == pos);
+    let as_num = |d: &Data| -> f64 {
+        match d {
+            Data::Int(v) => *v as f64,
+            Data::Float(v) => *v,
+            _ => f64::NAN,
+        }
+    };
+    kani::cover!(n == -7);
+    assert!(matches!(c_num.get_value(), Data::Float(_)));
+    assert!(matches!(c_i.get_value(), Data::Int(v) if *v == n as i64));
+    assert!(as_num(c_num.get_value()) == x);
+    assert!(as_num(c_i.get_value()) == x);
+    assert!(as_num(c_c.get_value()) == x);
+
+    // RK float: the 30 high bits of the double, possible when the 34 low bits are zero
+    if x.to_bits() & 0x3_FFFF_FFFF == 0 {
+        let mut rk_f = [0u8; 10];
+        head(&mut rk_f);
+        rk_f[6..10].copy_from_slice(&(((x.to_bits() >> 32) as u32) & 0xFFFF_FFFC).to_le_bytes());
+        let c_f = parse_rk(&rk_f, &formats, false).unwrap();
+        kani::cover!(n == 3);
+        assert!(c_f.get_position() == pos);
+        assert!(as_num(c_f.get_value()) == x);
+    }
+}
